@@ -324,7 +324,7 @@ Definition file_like (want_dir : bool) (vn obj field : str) (v : val) : list cla
   | Some c => [c]
   | None => let s := str_of v in
             match stat_lookup s with
-            | None => [CValid obj field s (VDefault (s2b "stat"))]
+            | None => [CValid obj field s (body_of (pk_msg vn) (s2b "stat"))]   (* after the repair: the custom message, else the os.Stat error text *)
             | Some (is_dir, _) =>
               if Bool.eqb is_dir want_dir then []
               else [CValid obj field s (body_of (pk_msg vn) (if want_dir then s2b "dir" else s2b "file"))]
